@@ -58,12 +58,26 @@ def forbidden_hits():
 
 
 def theorems_of(prop_file):
+    """fully qualified names of the theorems of a property file (namespace / end tracked line by line), number of examples"""
     src = strip_comments(open(prop_file).read())
-    ns = re.findall(r'^namespace\s+(\S+)', src, re.M)
-    names = re.findall(r'^(?:protected\s+)?theorem\s+([^\s:({\[]+)', src, re.M)
-    examples = len(re.findall(r'^example\b', src, re.M))
-    prefix = '.'.join(ns)
-    return [(prefix + '.' + n) if prefix else n for n in names], examples
+    stack = []
+    names = []
+    examples = 0
+    for line in src.split('\n'):
+        m = re.match(r'^namespace\s+(\S+)', line)
+        if m:
+            stack.append(m.group(1))
+            continue
+        m = re.match(r'^end\s+(\S+)', line)
+        if m and stack and stack[-1] == m.group(1):
+            stack.pop()
+            continue
+        m = re.match(r'^(?:protected\s+|private\s+)?theorem\s+([^\s:({\[]+)', line)
+        if m:
+            names.append('.'.join(stack + [m.group(1)]))
+        elif re.match(r'^example\b', line):
+            examples += 1
+    return names, examples
 
 
 def run_extract():
@@ -109,9 +123,10 @@ def proof_stage(pid, thorough=False):
     p, dt = run(['lake', 'env', 'lean', audit], cwd=LEAN_DIR)
     out = p.stdout + p.stderr
     axioms = {}
-    for m in re.finditer(r"'([^']+)' depends on axioms: \[([^\]]*)\]", out):
+    # names may themselves contain primes (`runM'`): match the outermost quotes of the report line
+    for m in re.finditer(r"^'(.+)' depends on axioms: \[([^\]]*)\]", out, re.M):
         axioms[m.group(1)] = {a.strip() for a in m.group(2).split(',') if a.strip()}
-    for m in re.finditer(r"'([^']+)' does not depend on any axioms", out):
+    for m in re.finditer(r"^'(.+)' does not depend on any axioms", out, re.M):
         axioms[m.group(1)] = set()
     for n in names:
         ax = axioms.get(n)
